@@ -177,6 +177,7 @@ pub fn dispatch(ctx: &mut Ctx, verb: &str, a: &[String]) -> Out {
         "hash.batch" => hash_batch(ctx, a),
         "bf.batch" => bf_batch(ctx, a),
         "bf.seq" => bf_seq(ctx, a),
+        "mt.same" => crate::verbs_mt::mt_same(ctx, a),
         "fiin.new" => fiin_new(ctx, a),
         "fiin.parse" => fiin_parse(ctx, a),
         "race.table" => race_table(),
